@@ -123,6 +123,15 @@ def handle (st : St) (n : Nat) (line : String) : Result := Id.run do
     let rep := ((g "first").bind hexOfString).map (fun b => String.fromUTF8! (ByteArray.mk b.toArray)) |>.getD "?"
     let where_ := ((rep.splitOn "\n").filter (fun l => (l.splitOn "transparency-dev/witness").length > 1 && (l.splitOn "zzverif").length == 1)).take 3
     return fail (st.bump "race.reports") n "C05" s!"the Go race detector reported {(g "reports").getD "?"} data race(s) while concurrent requests ran on one Witness: {" | ".intercalate (where_.map (fun l => l.trimAscii.toString))}"
+  | "OMR" :: rest =>
+    let g := field rest
+    let st := st.bump s!"omni.requests.{(g "log").getD "?"}"
+    let first := ((g "first").bind hexOfString).map (fun b => String.fromUTF8! (ByteArray.mk b.toArray)) |>.getD "?"
+    if (g "malformed").getD "0" != "0" then
+      return fail st n "C14" s!"{(g "store").getD "?"}: the {(g "log").getD "?"} feeder sent {(g "malformed").getD "?"} request(s) its log server cannot serve (not a path of the log's format, or beside the log's root), first: {first.take 80}"
+    else if (g "requests").getD "0" == "0" then
+      return fail st n "C14" s!"{(g "store").getD "?"}: the configured {(g "log").getD "?"} log was never polled"
+    else return { st := { st with nOK := st.nOK + 1 }, out := [s!"OK {n}"] }
   | "OMD" :: rest =>
     let g := field rest
     let st := st.bump "omni.distributor"
